@@ -56,47 +56,23 @@ theorem C03_counter_release (s : SchedSt) (msgs : List (List Nat)) :
   · rw [if_pos h]; subst h; simp
   · rw [if_neg h]
     simp only
+    have hstep : ∀ (acc : SchedSt) (u : Nat), (releaseOne acc u).activeCnt = acc.activeCnt
+        ∧ (releaseOne acc u).unschedQ = acc.unschedQ := by
+      intro acc u
+      unfold releaseOne
+      split
+      · exact ⟨rfl, rfl⟩
+      · split <;> exact ⟨rfl, rfl⟩
     have key : ∀ (l : List Nat) (s0 : SchedSt),
-        (l.foldl (fun (acc : SchedSt) uid =>
-          match acc.given.find? (fun (e : Nat × List Slot) => e.1 = uid) with
-          | none   => acc
-          | some e =>
-            match changeSlotStates acc.nodes e.2 false with
-            | none    => acc
-            | some ns => { acc with nodes := ns }) s0).activeCnt = s0.activeCnt
-        ∧ (l.foldl (fun (acc : SchedSt) uid =>
-          match acc.given.find? (fun (e : Nat × List Slot) => e.1 = uid) with
-          | none   => acc
-          | some e =>
-            match changeSlotStates acc.nodes e.2 false with
-            | none    => acc
-            | some ns => { acc with nodes := ns }) s0).unschedQ = s0.unschedQ := by
+        (l.foldl releaseOne s0).activeCnt = s0.activeCnt ∧ (l.foldl releaseOne s0).unschedQ = s0.unschedQ := by
       intro l
       induction l with
       | nil => intro s0; exact ⟨rfl, rfl⟩
       | cons u us ih =>
         intro s0
         simp only [foldl_cons]
-        have hstep : ∀ (acc : SchedSt), (match acc.given.find? (fun (e : Nat × List Slot) => e.1 = u) with
-            | none => acc
-            | some e => match changeSlotStates acc.nodes e.2 false with
-              | none => acc
-              | some ns => { acc with nodes := ns }).activeCnt = acc.activeCnt
-            ∧ (match acc.given.find? (fun (e : Nat × List Slot) => e.1 = u) with
-            | none => acc
-            | some e => match changeSlotStates acc.nodes e.2 false with
-              | none => acc
-              | some ns => { acc with nodes := ns }).unschedQ = acc.unschedQ := by
-          intro acc
-          split
-          · exact ⟨rfl, rfl⟩
-          · split <;> exact ⟨rfl, rfl⟩
-        have ⟨c, d⟩ := hstep s0
-        have ⟨a, b⟩ := ih (match s0.given.find? (fun (e : Nat × List Slot) => e.1 = u) with
-            | none => s0
-            | some e => match changeSlotStates s0.nodes e.2 false with
-              | none => s0
-              | some ns => { s0 with nodes := ns })
+        have ⟨c, d⟩ := hstep s0 u
+        have ⟨a, b⟩ := ih (releaseOne s0 u)
         exact ⟨by rw [a, c], by rw [b, d]⟩
     have ⟨a, b⟩ := key uids { s with activeCnt := s.activeCnt - uids.length, unschedQ := rest }
     exact ⟨a, b⟩
